@@ -1,6 +1,7 @@
 package exif2
 
 import (
+	"bufio"
 	"io"
 
 	"github.com/evanoberholster/imagemeta/exif2/ifds"
@@ -26,7 +27,8 @@ func Parse(r io.ReadSeeker) (Exif, error) {
 	if _, err = r.Seek(int64(h.TiffHeaderOffset), 0); err != nil {
 		return ir.Exif, err
 	}
-	if err := ir.DecodeTiff(r, h); err != nil {
+	// a buffered reader, as imagemeta.DecodeTiff uses: the unbuffered path refuses long values
+	if err := ir.DecodeTiff(bufio.NewReader(r), h); err != nil {
 		return ir.Exif, err
 	}
 	return ir.Exif, nil
